@@ -1,1 +1,225 @@
 //! verif-hooks: num area (read-only accessors; see mod.rs)
+//!
+//! Direct access to `BigUint` / `BigRat` arithmetic on *raw representations*:
+//! a `BigUint` is built exactly as given (`Small(n)` or `Large(limbs)`,
+//! leading zero limbs and one-limb `Large` allowed) and the result is returned
+//! in its raw representation too. `BigRat`s are built through the existing
+//! `BigRat::deserialize` and read back through `serialize`. Only existing
+//! methods are called; nothing here adds state or changes behaviour.
+
+use crate::error::FendError;
+use crate::interrupt::Never;
+use crate::num::verif_access::{BigRat, BigUint};
+use crate::result::FResult;
+use std::cmp::Ordering;
+
+/// Raw `BigUint`.
+#[derive(Clone, Debug, PartialEq, Eq)]
+pub enum RawUint {
+	/// `BigUint::Small(n)`
+	Small(u64),
+	/// `BigUint::Large(limbs)`, little-endian
+	Large(Vec<u64>),
+}
+
+/// Raw `BigRat`.
+#[derive(Clone, Debug, PartialEq, Eq)]
+pub struct RawRat {
+	/// `Sign::Negative`
+	pub neg: bool,
+	/// numerator
+	pub num: RawUint,
+	/// denominator
+	pub den: RawUint,
+}
+
+/// Result of a hooked operation.
+#[derive(Clone, Debug, PartialEq, Eq)]
+pub enum Out {
+	/// one big integer
+	Uint(RawUint),
+	/// quotient and remainder
+	Uint2(RawUint, RawUint),
+	/// `Ordering`: 0 = Less, 1 = Equal, 2 = Greater
+	Ord(u8),
+	/// a boolean
+	Bool(bool),
+	/// a rational
+	Rat(RawRat),
+	/// a rational with its exactness flag
+	ExactRat(RawRat, bool),
+	/// `FendError`: a small code (1 = DivideByZero, 2 = ZeroToThePowerOfZero,
+	/// 3 = ExponentTooLarge, 4 = Interrupted, 12 = anything else) and the message
+	Err(u32, String),
+	/// unknown operation name
+	Unknown,
+}
+
+fn to_big(r: &RawUint) -> BigUint {
+	match r {
+		RawUint::Small(n) => BigUint::Small(*n),
+		RawUint::Large(v) => BigUint::Large(v.clone()),
+	}
+}
+
+fn from_big(b: &BigUint) -> RawUint {
+	match b {
+		BigUint::Small(n) => RawUint::Small(*n),
+		BigUint::Large(v) => RawUint::Large(v.clone()),
+	}
+}
+
+fn err_out(e: &FendError) -> Out {
+	let code = match e {
+		FendError::DivideByZero => 1,
+		FendError::ZeroToThePowerOfZero => 2,
+		FendError::ExponentTooLarge => 3,
+		FendError::Interrupted => 4,
+		_ => 12,
+	};
+	Out::Err(code, e.to_string())
+}
+
+fn wrap(r: FResult<Out>) -> Out {
+	match r {
+		Ok(o) => o,
+		Err(e) => err_out(&e),
+	}
+}
+
+fn ord_code(o: Ordering) -> u8 {
+	match o {
+		Ordering::Less => 0,
+		Ordering::Equal => 1,
+		Ordering::Greater => 2,
+	}
+}
+
+/// `BigUint` operation on one operand: `lshift` (one bit, through
+/// `lshift_n(1)`), `rshift` (one bit, through `rshift_n(1)`).
+#[must_use]
+pub fn biguint_op1(op: &str, a: &RawUint) -> Out {
+	let int = &Never;
+	let a = to_big(a);
+	wrap((|| {
+		Ok(match op {
+			"lshift" => Out::Uint(from_big(&a.lshift_n(&BigUint::Small(1), int)?)),
+			"rshift" => Out::Uint(from_big(&a.rshift_n(&BigUint::Small(1), int)?)),
+			"iseven" => Out::Bool(a.is_even(int)?),
+			_ => Out::Unknown,
+		})
+	})())
+}
+
+/// `BigUint` operation on two operands: `add sub mul cmp divmod gcd pow`.
+/// `sub` can panic (as in the code); the caller catches it.
+#[must_use]
+pub fn biguint_op2(op: &str, a: &RawUint, b: &RawUint) -> Out {
+	let int = &Never;
+	let a = to_big(a);
+	let b = to_big(b);
+	wrap((|| {
+		Ok(match op {
+			"add" => Out::Uint(from_big(&a.add(&b))),
+			"sub" => Out::Uint(from_big(&a.sub(&b))),
+			"mul" => Out::Uint(from_big(&a.mul(&b, int)?)),
+			"cmp" => Out::Ord(ord_code(a.cmp(&b))),
+			"divmod" => {
+				let (q, r) = a.divmod(&b, int)?;
+				Out::Uint2(from_big(&q), from_big(&r))
+			}
+			"gcd" => Out::Uint(from_big(&BigUint::gcd(a, b, int)?)),
+			"pow" => Out::Uint(from_big(&BigUint::pow(&a, &b, int)?)),
+			_ => Out::Unknown,
+		})
+	})())
+}
+
+fn ser_uint(r: &RawUint, out: &mut Vec<u8>) {
+	match r {
+		RawUint::Small(n) => {
+			out.push(1);
+			out.extend_from_slice(&n.to_be_bytes());
+		}
+		RawUint::Large(v) => {
+			out.push(2);
+			out.extend_from_slice(&(v.len() as u64).to_be_bytes());
+			for x in v {
+				out.extend_from_slice(&x.to_be_bytes());
+			}
+		}
+	}
+}
+
+fn to_rat(r: &RawRat) -> Option<BigRat> {
+	let mut bytes = vec![if r.neg { 1u8 } else { 2u8 }];
+	ser_uint(&r.num, &mut bytes);
+	ser_uint(&r.den, &mut bytes);
+	BigRat::deserialize(&mut bytes.as_slice()).ok()
+}
+
+fn rd_u64(b: &[u8], pos: &mut usize) -> Option<u64> {
+	let s = b.get(*pos..*pos + 8)?;
+	*pos += 8;
+	Some(u64::from_be_bytes(s.try_into().ok()?))
+}
+
+fn de_uint(b: &[u8], pos: &mut usize) -> Option<RawUint> {
+	let kind = *b.get(*pos)?;
+	*pos += 1;
+	match kind {
+		1 => Some(RawUint::Small(rd_u64(b, pos)?)),
+		2 => {
+			let len = rd_u64(b, pos)?;
+			let mut v = Vec::new();
+			for _ in 0..len {
+				v.push(rd_u64(b, pos)?);
+			}
+			Some(RawUint::Large(v))
+		}
+		_ => None,
+	}
+}
+
+fn from_rat(r: &BigRat) -> Option<RawRat> {
+	let mut bytes = Vec::new();
+	r.serialize(&mut bytes).ok()?;
+	let neg = match *bytes.first()? {
+		1 => true,
+		2 => false,
+		_ => return None,
+	};
+	let mut pos = 1;
+	let num = de_uint(&bytes, &mut pos)?;
+	let den = de_uint(&bytes, &mut pos)?;
+	Some(RawRat { neg, num, den })
+}
+
+fn rat_out(r: &BigRat) -> Out {
+	from_rat(r).map_or(Out::Unknown, Out::Rat)
+}
+
+/// `BigRat` operation: `neg simplify` (one operand, `b` ignored),
+/// `add mul div pow cmp` (two operands).
+#[must_use]
+pub fn bigrat_op(op: &str, a: &RawRat, b: &RawRat) -> Out {
+	let int = &Never;
+	let (Some(a), Some(b)) = (to_rat(a), to_rat(b)) else {
+		return Out::Unknown;
+	};
+	wrap((|| {
+		Ok(match op {
+			"neg" => rat_out(&-a),
+			"simplify" => rat_out(&a.verif_simplify(int)?),
+			"add" => rat_out(&a.add(b, int)?),
+			"mul" => rat_out(&a.mul(&b, int)?),
+			"div" => rat_out(&a.div(&b, int)?),
+			"pow" => {
+				let r = a.pow(b, int)?;
+				from_rat(&r.value).map_or(Out::Unknown, |v| Out::ExactRat(v, r.exact))
+			}
+			"cmp" => Out::Ord(ord_code(a.cmp(&b))),
+			_ => Out::Unknown,
+		})
+	})())
+}
